@@ -51,6 +51,9 @@ func genC15(seed uint64, run int, tier string) *RunSpec {
 		c := g.Files[n][0]
 		f := FileSpec{Name: n, Versions: []FileVersion{{Content: c, MtimeNs: mt(0)}}}
 		nv := 1 + r.Intn(3)
+		if n == "theme.yml" || strings.HasPrefix(n, "data/") {
+			nv = 0 // read once at engine construction: held fixed within a history (fair comparison)
+		}
 		for v := 1; v <= nv; v++ {
 			var nc string
 			kind := r.Intn(10)
